@@ -423,6 +423,8 @@ func c10Edits() []edit {
 		{rule: "secretSources:none", topB: M{}, topF: M{"secrets": M{"sx": M{"name": "n"}}}, skip: noExt},
 		{rule: "secretSources:none-labels", topB: M{}, topF: M{"secrets": M{"sx": M{"labels": M{"a": "b"}}}}, skip: noExt},
 		{rule: "secretSources:several", topB: M{"secrets": M{"sx": M{"file": "./secret.txt"}}}, topF: M{"secrets": M{"sx": M{"environment": "SECRET_ENV"}}}, skip: noExt},
+		{rule: "secretSources:several-with-driver", topB: M{"secrets": M{"sx": M{"driver": "vault", "file": "./secret.txt"}}}, topF: M{"secrets": M{"sx": M{"environment": "SECRET_ENV"}}}, skip: noExt},
+		{rule: "secretSources:several-external", topB: M{"secrets": M{"sx": M{"external": true, "file": "./secret.txt"}}}, topF: M{"secrets": M{"sx": M{"environment": "SECRET_ENV"}}}, skip: noExt},
 		{rule: "configSources:none", topB: M{}, topF: M{"configs": M{"cx": M{"name": "n"}}}, skip: noExt},
 		{rule: "configSources:file+content", topB: M{"configs": M{"cx": M{"file": "./config.txt"}}}, topF: M{"configs": M{"cx": M{"content": "c"}}}, skip: noExt},
 		{rule: "configSources:environment+content", topB: M{"configs": M{"cx": M{"content": "c"}}}, topF: M{"configs": M{"cx": M{"environment": "CFG_ENV"}}}, skip: noExt},
